@@ -19,6 +19,7 @@ Oracles (DESIGN.md section 4, C17):
 """
 import errno
 import hashlib
+import re
 import os
 
 import gtwrap.xml_parser.xml_parser as XP
@@ -36,7 +37,7 @@ XML = R + "/xml"
 PROBES = ["overloads_same_param_names", "optional_param_member", "class_missing_from_index",
           "class_file_missing", "member_without_argsstring", "defname_instead_of_declname",
           "param_without_name", "fault_on_index_open", "fault_on_class_open", "text_with_quotes",
-          "text_with_backslash", "text_with_newline", "text_with_nonascii", "text_with_unprintable_latin1",
+          "text_with_backslash", "text_with_trigraph", "text_with_newline", "text_with_nonascii", "text_with_unprintable_latin1",
           "unprintable_followed_by_hexdigit", "templated_class_documented", "no_docs_at_all",
           "bindings_with_marker", "bindings_expected_empty", "more_bindings_than_documented_overloads",
           "xml_member_has_extra_optional_param", "overloads_with_permuted_param_names",
@@ -80,7 +81,7 @@ def describe():
 # documentation texts
 # ---------------------------------------------------------------------------
 PIECES = ["compute the value", "returns x", "see also", "a", "f", "0", "9", "abc", "DEF", " ", "  ",
-          "\"", "'", "\\", "\\n", "\n", "\t", "?", "??/", "%s", "{0}", "{", "}", "\\x41",
+          "\"", "'", "\\", "\\n", "\n", "\t", "?", "??/", "??=", "??'", "??)", "%s", "{0}", "{", "}", "\\x41",
           "\u00e9", "\u00fc", "\u4e2d\u6587", "\u2192", "\U0001f600", "\u00a0", "\u00ad", "\u0085",
           "\u007f", "\u2028", "\u200b", "\ue000", "\U000e0001", "10\u00a0cm", "caf\u00e9", "<b>", "&amp;",
           "]]>", "*/", "//", "R\"(", ")\"", "\r", "\u009f", "\u00a0f"]
@@ -116,6 +117,7 @@ class LiteralError(Exception):
     pass
 
 
+TRIGRAPH = re.compile(r"\?\?[=/'()!<>-]")
 SIMPLE = {"n": 10, "t": 9, "r": 13, "a": 7, "b": 8, "f": 12, "v": 11, "\\": 92, "'": 39, '"': 34, "?": 63}
 
 
@@ -208,8 +210,53 @@ def scan_literal_end(s, start):
     return -1
 
 
+_RAW_OPEN = re.compile(r'R"([^()\\ \t\n"]{0,16})\(')
+_WS = " \t\n"
+
+
+def _literal_starts(act, k):
+    return k < len(act) and (act[k] == '"' or act.startswith('R"', k) or act.startswith('u8"', k) or
+                             act.startswith('u8R"', k))
+
+
+def scan_literal_run(act, k):
+    """act[k] starts a string literal; consume the run of adjacent literals (ordinary, raw, u8-prefixed: one
+    literal to the compiler, translation phase 6).  -> (inner text in the `a" "b` form decode_literal()
+    reads, index after the run).  A raw piece is re-rendered as octal escapes of its UTF-8 bytes, which is
+    what it denotes."""
+    pieces = []
+    while True:
+        if act.startswith("u8", k):
+            k += 2
+        if act.startswith('R"', k):
+            m = _RAW_OPEN.match(act, k)
+            if not m:
+                raise ValueError("ill-formed raw string literal at offset %d: %r" % (k, act[k:k + 40]))
+            close = ")" + m.group(1) + '"'
+            e = act.find(close, m.end())
+            if e < 0:
+                raise ValueError("unterminated raw string literal at offset %d: %r" % (k, act[k:k + 40]))
+            pieces.append("".join("\\%03o" % b for b in act[m.end():e].encode("utf-8", "surrogateescape")))
+            k = e + len(close)
+        else:
+            e = scan_literal_end(act, k)
+            if e < 0:
+                raise ValueError("unterminated inserted literal at offset %d: %r" % (k, act[k:k + 60]))
+            pieces.append(act[k + 1:e])
+            k = e + 1
+        k2 = k
+        while k2 < len(act) and act[k2] in _WS:
+            k2 += 1
+        if _literal_starts(act, k2):
+            k = k2
+            continue
+        return '" "'.join(pieces), k
+
+
 def align_insertions(ref, act):
-    """act must be ref with insertions of `, "<literal>"`; -> list of literal bodies or raises"""
+    """act must be ref plus inserted string literals, each with the comma that makes it an argument:
+    `, "<literal>"` (the form the generator uses today) or `"<literal>", ` -- white space around the comma and
+    the spelling of the literal (adjacent pieces, raw strings) are free.  -> list of literal bodies, or raises"""
     lits = []
     i = j = 0
     while i < len(ref) or j < len(act):
@@ -217,26 +264,25 @@ def align_insertions(ref, act):
             i += 1
             j += 1
             continue
-        if act[j:j + 3] == ', "':
-            e = scan_literal_end(act, j + 2)
-            if e < 0:
-                raise ValueError("unterminated inserted literal at offset %d: %r" % (j, act[j:j + 60]))
-            # adjacent string literals are one literal to the compiler (translation phase 6): keep the whole
-            # run `a" "b` as the literal's source text; decode_literal() decodes piece by piece
-            while True:
-                k = e + 1
-                while k < len(act) and act[k] in " \t\n":
+        if j < len(act) and act[j] == ",":
+            k = j + 1
+            while k < len(act) and act[k] in _WS:
+                k += 1
+            if _literal_starts(act, k):
+                body, j = scan_literal_run(act, k)
+                lits.append(body)
+                continue
+        if _literal_starts(act, j) and (i >= len(ref) or not _literal_starts(ref, i)):
+            body, k = scan_literal_run(act, j)
+            while k < len(act) and act[k] in _WS:
+                k += 1
+            if k < len(act) and act[k] == ",":
+                k += 1
+                while k < len(act) and act[k] in _WS and not (i < len(ref) and ref[i] == act[k]):
                     k += 1
-                if k < len(act) and act[k] == '"':
-                    e2 = scan_literal_end(act, k)
-                    if e2 < 0:
-                        raise ValueError("unterminated inserted literal at offset %d: %r" % (k, act[k:k + 60]))
-                    e = e2
-                    continue
-                break
-            lits.append(act[j + 3:e])
-            j = e + 1
-            continue
+                lits.append(body)
+                j = k
+                continue
         raise ValueError("outputs diverge at ref[%d]=%r act[%d]=%r" % (i, ref[i:i + 40], j, act[j:j + 40]))
     return lits
 
@@ -356,6 +402,8 @@ def gen_case(tape, batch):
         pr["text_with_quotes"] = 1
     if "\\" in alltext:
         pr["text_with_backslash"] = 1
+    if TRIGRAPH.search(alltext):
+        pr["text_with_trigraph"] = 1
     if "\n" in alltext:
         pr["text_with_newline"] = 1
     if any(ord(ch) > 127 for ch in alltext):
@@ -479,12 +527,24 @@ def run_case(tape, batch):
     calls = []
     orig = XP.XMLDocParser.extract_docstring
 
-    def hooked(self, xml_folder, cpp_class, cpp_method, method_args_names):
-        rec = {"cls": cpp_class, "method": cpp_method, "args": list(method_args_names), "log0": len(w.log),
-               "faults0": sum(w.faults_fired.values())}
+    import inspect
+    sig = inspect.signature(orig)
+    pnames = list(sig.parameters)[1:5]      # (xml folder, class, method, parameter names) -- by position, whatever their names
+    broken = []
+
+    def hooked(self, *a, **kw):
+        try:
+            ba = sig.bind(self, *a, **kw)
+            ba.apply_defaults()
+            _, cpp_class, cpp_method, method_args_names = [ba.arguments[n] for n in pnames]
+            rec = {"cls": str(cpp_class), "method": str(cpp_method), "args": [str(x) for x in method_args_names]}
+        except Exception as e:      # the seam moved: a harness matter, never a verdict
+            broken.append("extract_docstring%s called with %r %r: %s" % (sig, a[1:], sorted(kw), e))
+            return orig(self, *a, **kw)
+        rec.update(log0=len(w.log), faults0=sum(w.faults_fired.values()))
         calls.append(rec)
         try:
-            r = orig(self, xml_folder, cpp_class, cpp_method, method_args_names)
+            r = orig(self, *a, **kw)
             rec["ret"] = r
             return r
         except BaseException as e:
@@ -496,6 +556,8 @@ def run_case(tape, batch):
     XP.XMLDocParser.extract_docstring = hooked
     t = w.add_task(B._mk_task(_spec(case, True)))
     w.run()
+    if broken:
+        return {"harness": "docstring-seam", "detail": broken[0]}
     viol = []
     nfired = sum(w.faults_fired.values())
     out = w.files.get(_out_path(case))
@@ -587,6 +649,14 @@ def judge(case, calls, lits, w):
         # ---- D4: escaping ----------------------------------------------------------
         try:
             got = decode_literal(lit)
+            tri = TRIGRAPH.search(lit)
+            if tri and got == doc.encode("utf-8"):
+                # translation phase 1 of every C++ standard before C++17 (and of compilers that keep the feature)
+                # replaces ??= ??/ ??' ??( ??) ??! ??< ??> ??- before the literal is even tokenised
+                viol.append({"inv": "D4", "sig": "D4:trigraph",
+                             "detail": "literal %r contains the trigraph %r: a compiler in C++11/14 mode decodes it to "
+                                       "another text than %r (or, for ??/ before the closing quote, does not compile it)"
+                                       % (lit[:120], tri.group(0), doc[:80])})
             if got != doc.encode("utf-8"):
                 cls = "wrong-bytes"
                 if any(0x7f <= ord(ch) <= 0xff for ch in doc) and "\\x" in lit:
